@@ -431,18 +431,85 @@ func c08Coverage(c *Ctx, ct *Cont, name string) {
 	if fd == nil {
 		return
 	}
-	loops := spineLoops(c, fd)
 	ob := c.Ob("C08.R2", name+"/coverage", fd.Pos())
-	if len(loops) != 1 {
-		ob.Fail("expected exactly one range loop over the receiver's spine, found %d", len(loops))
+	paths, why := c.runPaths(fd)
+	if why != "" {
+		ob.Undecided("body outside the path vocabulary: %s", why)
 		return
 	}
-	l := loops[0]
-	if why := loopHasEarlyExit(l.Stmt); why != "" {
-		ob.Fail("copy loop may skip elements: %s", why)
-		return
+	v := c.view(fd)
+	for _, p := range paths {
+		if p.End != "return" || len(p.Vals) != 1 {
+			ob.Fail("copy() has a path that does not return a container")
+			return
+		}
+		var loop *LoopRec
+		nl := 0
+		for _, s := range p.Effects() {
+			if s.Kind == "loop" {
+				loop = s.Loop
+				nl++
+			}
+		}
+		if nl != 1 || loop.Range == nil || !v.isRecvSpine(loop.Over) {
+			ob.Fail("expected exactly one range loop over the receiver's spine on every path, found %d", nl)
+			return
+		}
+		result := p.Vals[0]
+		for _, ip := range loop.Iter {
+			if ip.Why != "" {
+				ob.Undecided("loop body outside the path vocabulary: %s", ip.Why)
+				return
+			}
+			if ip.End != "fall" && ip.End != "continue" {
+				ob.Fail("copy loop may skip elements: an iteration ends with %s", ip.End)
+				return
+			}
+			installed := false
+			isCopyOfValue := func(t Term) bool {
+				for {
+					call, ok := t.(TCall)
+					if !ok || call.Fun == nil {
+						return false
+					}
+					if call.Fun.Name() == "copy" && call.Recv != nil && loop.Value != nil && isParamTerm(call.Recv, loop.Value) {
+						return true
+					}
+					if call.Recv == nil && len(call.Args) == 1 {
+						t = call.Args[0] // parseVal(copy())
+						continue
+					}
+					return false
+				}
+			}
+			for _, s := range ip.Effects() {
+				switch s.Kind {
+				case "store":
+					if ix, ok := s.LHS.(TIndex); ok && loop.Key != nil && isParamTerm(ix.I, loop.Key) && isCopyOfValue(s.RHS) {
+						if sel, ok := ix.X.(TSel); ok && sameContainer(sel.X, result) {
+							installed = true
+						}
+					}
+				case "call":
+					if s.Call == nil || s.Call.Fun == nil || s.Call.Recv == nil || !sameContainer(s.Call.Recv, result) {
+						continue
+					}
+					args := unpack(s.Call.Args)
+					switch {
+					case !ct.IsList && s.Call.Fun.Name() == "Set" && len(args) == 2 && loop.Key != nil && isParamTerm(args[0], loop.Key) && isCopyOfValue(args[1]):
+						installed = true
+					case ct.IsList && s.Call.Fun.Name() == "Add" && len(args) == 1 && isCopyOfValue(args[0]):
+						installed = true
+					}
+				}
+			}
+			if !installed {
+				ob.Fail("an iteration of the copy loop does not install copy() of the visited element under its own key into the result")
+				return
+			}
+		}
 	}
-	ob.Ok("one range loop over the receiver's own spine without break/continue/return/goto: every element is visited once")
+	ob.Ok("every path: one range loop over the receiver's own spine, no iteration leaves it early, every iteration installs copy() of the visited element under its key into the returned container")
 }
 
 func c08R3(c *Ctx) {
@@ -468,7 +535,7 @@ func c08R3(c *Ctx) {
 		}
 	}
 	c.R.Floor("C08.R3", nParam+nFresh, 31)
-	c.Ob("C08.R3", "parseVal/operand-arms", fn.Pos()).Check(nParam == 2, "exactly 2 arms return the operand (Object, List)", "expected exactly 2 pass-through arms, found "+itoa(nParam))
+	c.Ob("C08.R3", "parseVal/operand-arms", fn.Pos()).Check(nParam >= 1, itoa(nParam)+" return(s) hand back the operand (which arms: C12.R1)", "no pass-through arm: a container operand would be wrapped or re-built")
 }
 
 func c08R4(c *Ctx) {
@@ -498,8 +565,8 @@ func cloneShape(a *E3, ct *Cont, fn *ssa.Function) (bool, string) {
 	var ret *ssa.Return
 	for _, b := range fn.Blocks {
 		if r, ok := b.Instrs[len(b.Instrs)-1].(*ssa.Return); ok {
-			if ret != nil {
-				return false, "Clone has more than one return"
+			if ret != nil && len(r.Results) == 1 && len(ret.Results) == 1 && r.Results[0] != ret.Results[0] {
+				return false, "Clone has more than one distinct return value"
 			}
 			ret = r
 		}
